@@ -61,3 +61,12 @@ func (vc *VC) assumeHeapWF(name string, heap Term, alloc Term) {
 	}
 	vc.assume(fmt.Sprintf("(forall %s (! %s :pattern (%s)))", pat, fact, read))
 }
+
+func fnvHash(s string) uint32 {
+	h := uint32(2166136261)
+	for i := 0; i < len(s); i++ {
+		h ^= uint32(s[i])
+		h *= 16777619
+	}
+	return h
+}
